@@ -47,6 +47,7 @@ func TestVerif(t *testing.T) {
 }
 
 var registry = map[string]func(t *testing.T, c *Collector){
+	"FIDELITY": func(t *testing.T, c *Collector) { runFidelity(c) },
 	"C16": func(t *testing.T, c *Collector) {
 		c.res.Rule = "schedules (<= bound preemptions at lock-acquisition and file-system-call granularity) of 2-3 threads drawn from Put/Get/Has/GetSize/Remove/Flush/iteration/storage-size queries/file-cache resizing and index-GC / primary-GC cycles, executed in a -race build on the real file system with a scheduler hand-off the race detector cannot see (plain memory in go:norace functions), so that along every schedule only the program's own synchronisation orders accesses; every DATA RACE report is a violation, fingerprinted by the two access sites; non-trivial = every execution (all have >= 2 threads on shared state)"
 		scs := c16Scenarios(c.job.Tier)
